@@ -54,7 +54,7 @@ DOC_MAP = {cabc.Sequence: list, cabc.MutableSequence: list, cabc.Collection: lis
            cabc.Mapping: dict, cabc.MutableMapping: dict, cabc.Hashable: str}
 MODNAME = "vpred_cat"
 SRC = '''
-import typing, dataclasses, enum, datetime, uuid, decimal, collections, collections.abc
+import typing, dataclasses, enum, datetime, uuid, decimal, collections, collections.abc, sqlite3, pathlib, fractions
 @dataclasses.dataclass
 class DC:
     a: int = 0
@@ -85,6 +85,18 @@ class MyDate(datetime.date): pass
 class MyDT(datetime.datetime): pass
 class MyUUID(uuid.UUID): pass
 class MyDec(decimal.Decimal): pass
+class MyRow(sqlite3.Row): pass
+class MyRow2(MyRow): pass
+class MyODict(collections.OrderedDict): pass
+class MyDeque(collections.deque): pass
+class MyPath(pathlib.PurePosixPath): pass
+class MyTD(datetime.timedelta): pass
+class MyTime(datetime.time): pass
+class MyFrac(fractions.Fraction): pass
+class MyFloat(float): pass
+class MyBytes(bytes): pass
+class MySet(set): pass
+class MyFSet(frozenset): pass
 class MyMapping(collections.abc.Mapping):
     def __getitem__(self, k): raise KeyError(k)
     def __iter__(self): return iter(())
@@ -123,7 +135,7 @@ def catalogue():
                collections.deque, collections.defaultdict, collections.OrderedDict, collections.Counter, collections.ChainMap, types.MappingProxyType,
                ipaddress.IPv4Address, ipaddress.IPv6Address, sqlite3.Row, numbers.Number, numbers.Integral, slice, BaseException,
                m.DC, m.FDC, m.NT, m.UNT, m.TD, m.Plain, m.NoHints, m.Col, m.ICol, m.MyStr, m.MyInt, m.MyList, m.MyDict, m.MyTuple, m.MyDate, m.MyDT,
-               m.MyUUID, m.MyDec, m.MyMapping, m.MySeq, m.MyIter, m.Box, m.FromDict, type(iter([])), type(x for x in ())]
+               m.MyUUID, m.MyDec, m.MyRow, m.MyRow2, m.MyODict, m.MyDeque, m.MyPath, m.MyTD, m.MyTime, m.MyFrac, m.MyFloat, m.MyBytes, m.MySet, m.MyFSet, m.MyMapping, m.MySeq, m.MyIter, m.Box, m.FromDict, type(iter([])), type(x for x in ())]
     abcs = [cabc.Iterable, cabc.Iterator, cabc.Collection, cabc.Sequence, cabc.MutableSequence, cabc.Set, cabc.MutableSet, cabc.Mapping,
             cabc.MutableMapping, cabc.Hashable, cabc.Sized, cabc.Container, cabc.Reversible, cabc.Generator, cabc.KeysView, cabc.ValuesView,
             cabc.ItemsView, cabc.ByteString if hasattr(cabc, "ByteString") else cabc.Sequence]
@@ -217,7 +229,7 @@ def o_mapping(x):
     r = resolve(x)
     if not is_cls(r):
         return NotImplemented
-    return issubclass(r, cabc.Mapping) or r in (sqlite3.Row, types.MappingProxyType)
+    return issubclass(r, cabc.Mapping) or issubclass(r, (sqlite3.Row, types.MappingProxyType))
 
 
 def is_wrapper(x):
